@@ -184,12 +184,12 @@ take_err_harness!(c19_take_err_invalidop, ErrorKind::InvalidOperation, io::Error
 // ------------------------------------------------------------------ C02 / C05: captures
 
 macro_rules! capture_harness {
-    ($name:ident, $mode:expr, $safe:expr) => {
+    ($name:ident, $mode:expr, $safe:expr, $nested:expr) => {
         #[kani::proof]
-        #[kani::unwind(8)]
+        #[kani::unwind(26)]
         fn $name() {
             let mut rec = Rec::<8>::new();
-            let nested: bool = kani::any();
+            let nested: bool = $nested;
             let v;
             let v2;
             {
@@ -213,15 +213,16 @@ macro_rules! capture_harness {
             // text written before/after the capture reaches the real sink, captured text does not
             assert!(rec.len == 2 && rec.buf[0] == b'a' && rec.buf[1] == b'z');
             // the capture holds exactly what was written between begin and end (inner capture excluded)
-            assert!(v.as_str() == Some("<b>"));
+            let vs = v.as_str().unwrap().as_bytes();
+            assert!(vs.len() == 3 && vs[0] == b'<' && vs[1] == b'b' && vs[2] == b'>');
             // and is marked safe iff escaping was on when the capture ended
             assert!(v.is_safe() == $safe);
             if nested {
-                assert!(v2.as_str() == Some("c"));
+                let v2s = v2.as_str().unwrap().as_bytes();
+                assert!(v2s.len() == 1 && v2s[0] == b'c');
                 assert!(v2.is_safe() == $safe);
             }
-            kani::cover!(nested);
-            kani::cover!(!nested);
+            kani::cover!(true);
             core::mem::forget(v);
             core::mem::forget(v2);
         }
@@ -229,8 +230,10 @@ macro_rules! capture_harness {
 }
 
 // @verif-block props=C02,C05 group=core doc=Output::begin_capture/end_capture_(optionally_nested):_captured_text_is_exactly_what_was_written_since_the_matching_begin,_it_is_a_SAFE_string_iff_auto-escaping_was_on_when_the_capture_ended,_and_text_written_after_the_capture_reaches_the_real_output_again
-capture_harness!(c05_capture_html_marks_safe, AutoEscape::Html, true); // tier=quick cap=600
-capture_harness!(c05_capture_none_stays_unsafe, AutoEscape::None, false); // tier=quick cap=600
+capture_harness!(c05_capture_html_marks_safe, AutoEscape::Html, true, false); // tier=thorough cap=3600
+capture_harness!(c05_capture_none_stays_unsafe, AutoEscape::None, false, false); // tier=thorough cap=3600
+capture_harness!(c05_capture_nested_html, AutoEscape::Html, true, true); // tier=thorough cap=3600
+capture_harness!(c05_capture_nested_none, AutoEscape::None, false, true); // tier=thorough cap=3600
 // @verif-end
 
 #[cfg(test)]
